@@ -303,7 +303,14 @@ func Run(k int) int {
 ''',
 }
 
-PROGRAMS = {'nearmiss': nearmiss(), 'iface': IFACE}
+# the same program under a module path that starts with a digit: unexported method
+# names are qualified with the package path, which then sorts BEFORE the exported
+# names ("9tv07.example/order/base.sealed" < "Pub") - method tables and interface
+# method lists must still be walked consistently
+ORDER = dict(IFACE)
+ORDER['__mod__'] = '9tv07.example/order'
+
+PROGRAMS = {'nearmiss': nearmiss(), 'iface': IFACE, 'order': ORDER}
 
 
 def main():
@@ -311,13 +318,15 @@ def main():
     os.makedirs(out, exist_ok=True)
     progs = {}
     for name, files in PROGRAMS.items():
-        mod = 'tvc07' + name
+        mod = files.get('__mod__', 'tvc07' + name)
         d = os.path.join(out, name)
         pkgs = set()
         for rel, src in files.items():
+            if rel == '__mod__':
+                continue
             p = os.path.join(d, rel)
             os.makedirs(os.path.dirname(p), exist_ok=True)
-            open(p, 'w').write(src.replace('MODNAME', mod).replace('MOD', mod))
+            open(p, 'w').write(src.replace('MODNAME', mod.split('/')[-1]).replace('MOD', mod))
             if os.path.dirname(rel):
                 pkgs.add(mod + '/' + os.path.dirname(rel))
         open(os.path.join(d, 'go.mod'), 'w').write('module %s\n\ngo 1.24\n' % mod)
